@@ -51,6 +51,7 @@ class FuncRun(ExprMixin, InstrMixin, CallMixin):
         self.facted = set()
         self.fnvals = {}
         self.closure_slots = {}
+        self.boxrefs = {}
         self.rangevis = {}
         self.escaped_closures = []
         self.kind_counts = {}
